@@ -243,6 +243,115 @@ def inst_rate_floor(cx, iid):
 
 
 
+def inst_update_guards(cx, iid):
+    """T8 TABLE: which RFC 5348 update applies when.  In handle_feedback the four rate updates are reached under exactly
+    their conditions — a reported loss increase during slow start ends slow start (first-loss form, mode becomes
+    ThroughputEqn), doubling happens only without a loss increase, at most once per RTT, the initial window only at the
+    first feedback, and the equation form exactly in the equation phase — and the receive-rate limit is 2 * X_recv_set
+    for rate-limited and data-limited intervals and X_recv_set itself after a loss increase.  The forms themselves are
+    C14.c; this instance decides their guards: a doubling that is reached after a loss report exceeds the throughput
+    equation, a limit of 3 * X_recv lets one feedback more than double the rate."""
+    R = cx.R
+    LI, NLI = r"lt\(arg1\.prev_loss_rate,arg3\.loss_rate\)", r"le\(arg3\.loss_rate,arg1\.prev_loss_rate\)"
+    SS, TE = r"is\(arg1\.mode,SlowStart\)", r"is\(arg1\.mode,ThroughputEqn\)"
+    TLD = r"arg1\.mode@SlowStart\.0\.time_last_doubled_ms"
+    with cx.instance(iid, "T8 TABLE (guards of the update forms)", "handle_feedback reaches each rate update under exactly its RFC 5348 condition; recv_limit is 2*X_recv_set except after a loss increase", floor=8) as inst:
+        b = R.body("SendRateComp::handle_feedback")
+        fa = cx.fa(b, kill_fields=False)
+        want = [
+            (r"Ord::max\(Ord::min\(var\d+,var\d+\),.*MINIMUM_RATE\)", "first loss", [SS, LI]),
+            (r"Ord::max\(Ord::min\(mul\(2,arg1\.send_rate\),var\d+\),send_rate::compute_initial_send_rate\(.*\)\)", "doubling", [SS, NLI, r"is\(%s,Some\)" % TLD, r"le\(SendRateComp::update_rtt\(.*\)\.1,sub\(arg2,%s@Some\.0\)\)" % TLD]),
+            (r"send_rate::compute_initial_send_rate\(.*\)", "first feedback", [SS, NLI, r"is\(%s,None\)" % TLD]),
+            (r"Ord::max\(Ord::min\(arg1\.mode@ThroughputEqn\.0\.send_rate_tcp,var\d+\),.*MINIMUM_RATE\)", "equation", [TE]),
+        ]
+        seen = set()
+        from mirlib import alt_satisfies
+        for l, node, ps in b.field_writes(r"arg1\.send_rate"):
+            if node["k"] != "assign":
+                continue
+            e = show(b.rvalue_expr(node["rv"]))
+            for rx, nm, guard in want:
+                if re.fullmatch(rx, e):
+                    seen.add(nm)
+                    alts = fa.at(l) or []
+                    bad = [a for a in alts if not alt_satisfies(a, guard)]
+                    inst.site(b, l, "%s update under %s" % (nm, " & ".join(g.replace("\\", "") for g in guard))[:150])
+                    if bad or not alts:
+                        inst.violation(b.path, nm + " update guard", "the %s update of the allowed rate is reachable without its RFC 5348 condition (%s)" % (nm, " and ".join(g.replace("\\", "") for g in guard)[:200]),
+                                       at=b.span_at(l), detail={"facts_on_offending_path": sorted(bad[0]) if bad else []})
+                    break
+        for nm in ("first loss", "doubling", "first feedback", "equation"):
+            if nm not in seen:
+                inst.violation(b.path, nm + " update", "handle_feedback has no %s update of the allowed rate (anchor / C14.c form)" % nm)
+        # the transition: the first-loss update goes with mode = ThroughputEqn, and nothing else leaves slow start
+        mw = [(l, show(b.rvalue_expr(node["rv"]))) for l, node, ps in b.field_writes(r"arg1\.mode") if node["k"] == "assign"]
+        for l, v in mw:
+            inst.site(b, l, "mode = " + v[:60])
+            alts = fa.at(l) or []
+            if not v.startswith("SendRateMode::ThroughputEqn") or not alts or any(not alt_satisfies(a, [SS, LI]) for a in alts):
+                inst.violation(b.path, "mode transition", "handle_feedback sets the mode to `%s` outside (slow start and loss increase)" % v[:80], at=b.span_at(l))
+        if len(mw) != 1:
+            inst.violation(b.path, "mode transition", "expected exactly one transition slow start -> equation phase in handle_feedback (found %d)" % len(mw))
+        # recv_limit and the first-loss target: value per condition
+        tables = {
+            "recv_limit": [(r"u32::saturating_mul\(RecvRateSet::rate_limited_update\(arg1\.recv_rate_set,arg2,arg3\.receive_rate,.*\),2\)", [r"arg3\.rate_limited"]),
+                           (r"RecvRateSet::loss_increase_update\(arg1\.recv_rate_set,arg2,arg3\.receive_rate\)", [r"!arg3\.rate_limited", LI]),
+                           (r"u32::saturating_mul\(RecvRateSet::data_limited_update\(arg1\.recv_rate_set,arg2,arg3\.receive_rate\),2\)", [r"!arg3\.rate_limited", NLI])],
+            "first-loss target": [(r"send_rate::compute_initial_loss_send_rate\(.*\)", [r"is\(%s,None\)" % TLD]),
+                                  (r"div\(arg1\.send_rate,2\)", [r"is\(%s,Some\)" % TLD])],
+        }
+        for l in range(len(b.locals)):
+            ds = b.defs.get(l, [])
+            vals = [(loc, show(b.rvalue_expr(node["rv"])) if kind == "assign" else show(b.call_expr(node))) for loc, kind, node in ds]
+            for tname, rows in tables.items():
+                if len(vals) == len(rows) and any(re.fullmatch(rows[0][0], v) for _, v in vals):
+                    for loc, v in vals:
+                        row = [g for rx, g in rows if re.fullmatch(rx, v)]
+                        inst.site(b, loc, "%s = %s" % (tname, v[:80]))
+                        if not row:
+                            inst.violation(b.path, tname, "%s is computed as `%s`, which is none of its RFC 5348 forms" % (tname, v[:140]), at=b.span_at(loc))
+                            continue
+                        alts = fa.at(loc) or []
+                        if not alts or any(not alt_satisfies(a, row[0]) for a in alts):
+                            inst.violation(b.path, tname + " guard", "%s takes the value `%s` outside its condition (%s)" % (tname, v[:100], " and ".join(g.replace("\\", "") for g in row[0])), at=b.span_at(loc))
+
+
+def inst_feedback_report(cx, iid):
+    """T7 SHAPE: what a feedback report says is what was measured: the RTT sample is now minus the send time of the
+    newest acknowledged frame, the receive rate is the acknowledged bytes divided by the seconds since the previous
+    report (0 for the first one), the loss rate is the loss-interval estimate and the rate-limited flag is the one
+    collected.  The estimates C14 bounds are filters over exactly these samples."""
+    R = cx.R
+    with cx.instance(iid, "T7 SHAPE", "FeedbackGen::get_feedback reports rtt = now - last_send_time, X_recv = bytes / seconds since the last report, p = compute_loss_rate(), the collected rate_limited flag", floor=4) as inst:
+        b = R.body("FeedbackGen::get_feedback")
+        AD = r"Option::take\(arg1\.ack_data\)@Some\.0"
+        hit = False
+        for l, st in b.assigns():
+            rv = st["rv"]
+            if rv["k"] == "agg" and str(rv.get("adt", "")).endswith("FeedbackData") and rv.get("fields"):
+                hit = True
+                got = {n: b.operand_expr(o) for n, o in zip(rv["fields"], rv["ops"])}
+                want = {"rtt_ms": r"sub\(arg2,%s\.last_send_time_ms\)" % AD, "loss_rate": r"LossIntervalQueue::compute_loss_rate\(arg1\.loss_intervals\)", "rate_limited": AD + r"\.rate_limited"}
+                for k, rx in want.items():
+                    v = show(got.get(k, ("?",)))
+                    inst.site(b, l, "%s = %s" % (k, v[:90]))
+                    if not re.fullmatch(rx, v):
+                        inst.violation(b.path, "feedback " + k, "the feedback report's %s is `%s`" % (k, v[:140]), at=b.span_at(l))
+                from rules import case_values
+                rates = sorted({show(ce) for alts, ce in case_values(cx, b, got["receive_rate"])})
+                inst.site(b, l, "receive_rate in %s" % [r[:100] for r in rates])
+                ok = len(rates) == 2 and "0" in rates and any(re.fullmatch(r"cast<u32>\(f64::clamp\(div\(cast<f64>\(%s\.total_ack_size\),frame_queue::ms_to_s\(sub\(arg2,arg1\.last_feedback_ms@Some\.0\)\)\),0(\.0)?,cast<f64>\(.*u32.*MAX\)\)\)" % AD, r) for r in rates)
+                if not ok:
+                    inst.violation(b.path, "feedback receive_rate", "the reported receive rate is %s: expected bytes acknowledged / seconds since the previous report (0 for the first)" % [r[:120] for r in rates], at=b.span_at(l))
+        if not hit:
+            inst.violation(b.path, "FeedbackData", "get_feedback builds no FeedbackData literal (anchor)")
+        ms = R.body("frame_queue::ms_to_s")
+        e = show(ms.local_expr(0))
+        inst.site(ms, None, "frame_queue::ms_to_s = " + e)
+        if e not in ("div(cast<f64>(arg1),1000.0)", "div(cast<f64>(arg1),1000)"):
+            inst.violation(ms.path, "ms_to_s", "frame_queue::ms_to_s is `%s`, not v / 1000" % e)
+
+
 def run(cx):
     R = cx.R
     with cx.instance("C14.a", "T7 SHAPE (AC-normal form)", "TCP throughput equation, RTT filter, RTO and initial rates are the RFC 5348 expressions", floor=6) as inst:
@@ -326,6 +435,8 @@ def run(cx):
             inst.violation(nf.path, "initial nofeedback timer", "the initial no-feedback timer is not now + 2000 ms")
 
     inst_rate_floor(cx, "C14.c")
+    inst_update_guards(cx, "C14.m")
+    inst_feedback_report(cx, "C14.n")
     with cx.instance("C14.g", "T2 PAIR (stores) + T7", "the quantities the bounds are stated over are actually stored: X_Bps is re-evaluated from the current R and p before the equation-phase rate is set; update_rtt/update_rto store the new estimate; s_to_ms = round(max(1000 v, 0)); both feedback and expiry re-arm the no-feedback timer at now + RTO", floor=8) as inst:
         hf = R.body("SendRateComp::handle_feedback")
         tcp_w = [(l, show(hf.rvalue_expr(n["rv"])) if n["k"] == "assign" else show(hf.call_expr(n))) for l, n, ps in hf.field_writes(r"arg1\.mode@ThroughputEqn\.0\.send_rate_tcp")]
